@@ -39,8 +39,15 @@ ASSUMPTIONS = ["Coverage.total is the depth accessor (folded from source for the
                "pysam read attributes as modelled by the read stub (get_blocks = aligned blocks without deletions)"]
 
 GRange = collections.namedtuple("GRange", ["chr", "start", "end"])
+# the pseudogene's `i1` overlaps the gene's `e2` (as CYP2D7's repeat region overlaps the region upstream of CYP2D6): both count the shared bases
 REGIONS = [{"e1": GRange("22", 10, 14), "i1": GRange("22", 14, 14), "e2": GRange("22", 14, 19)},
-           {"e1": GRange("22", 40, 43), "i1": GRange("22", 43, 43), "e2": GRange("22", 43, 50)}]
+           {"e1": GRange("22", 40, 43), "i1": GRange("22", 17, 21), "e2": GRange("22", 43, 50)}]
+# Gene.region_at as the loader builds it: one owner per position, later (gene, region) pairs overwrite earlier ones
+REGION_AT = {i: (g_, r_) for g_, d_ in enumerate(REGIONS) for r_, rng_ in d_.items() for i in range(rng_.start, rng_.end)}
+
+
+def gene_stub():
+    return Obj(regions=REGIONS, name="G", region_at=lambda pos: REGION_AT.get(pos))
 CN = GRange("22", 100, 106)
 
 
@@ -78,7 +85,7 @@ def spec_depth(table, p):
 def fold_normalize(repo, table, cnv, data, neutral_value):
     f = repo.func("coverage::Coverage._normalize_coverage")
     prof = Obj(cn_region=CN, data=data, neutral_value=neutral_value)
-    me = Obj(profile=prof, _cnv_coverage=cnv, gene=Obj(regions=REGIONS, name="G"), _coverage=table, _indels=None,
+    me = Obj(profile=prof, _cnv_coverage=cnv, gene=gene_stub(), _coverage=table, _indels=None,
              total=real_total(repo, table), _region_coverage={})
     k, v = Evaluator({"self": me}).run(fn_body(f))
     return k, v, me._region_coverage
@@ -128,7 +135,7 @@ def r1(repo, res):
     f = repo.func("coverage::Coverage._normalize_coverage")
     res.analysed(f)
     table, cnv = depth_table()
-    data = {"G": {"e1": [40.0, 30.0], "i1": [0, 0], "e2": [55.0, 70.0]}}
+    data = {"G": {"e1": [40.0, 30.0], "i1": [0, 12.0], "e2": [55.0, 70.0]}}
     Np = 30.0
     try:
         k, v, out = fold_normalize(repo, table, cnv, data, Np)
@@ -193,7 +200,7 @@ def r1(repo, res):
         ds = profile_from(repo, sparse, cnv21, cn=cn21)
         fs = repo.func("coverage::Coverage._normalize_coverage")
         prof_ = Obj(cn_region=cn21, data=ds, neutral_value=ds["neutral"]["value"])
-        me_ = Obj(profile=prof_, _cnv_coverage=cnv21, gene=Obj(regions=REGIONS, name="G"), _coverage=sparse, _indels=None, total=real_total(repo, sparse), _region_coverage={})
+        me_ = Obj(profile=prof_, _cnv_coverage=cnv21, gene=gene_stub(), _coverage=sparse, _indels=None, total=real_total(repo, sparse), _region_coverage={})
         ks, vs = Evaluator({"self": me_}).run(fn_body(fs))
         outs = me_._region_coverage
         want_doc = {"e1": [1, 2], "i1": [0, 0], "e2": [0, 1]}
@@ -272,7 +279,7 @@ def r1(repo, res):
 def r2(repo, res):
     f = repo.func("coverage::Coverage._normalize_coverage")
     table, cnv = depth_table()
-    data = {"G": {"e1": [40.0, 30.0], "i1": [0, 0], "e2": [55.0, 70.0]}}
+    data = {"G": {"e1": [40.0, 30.0], "i1": [0, 12.0], "e2": [55.0, 70.0]}}
     try:
         k1, v1, o1 = fold_normalize(repo, table, collections.defaultdict(int), data, 30.0)
         k2, v2, o2 = fold_normalize(repo, table, cnv, data, 0.0)
